@@ -24,7 +24,9 @@ class QasmExporter(QCircuitExporter):
 
     def export_v3(self, _selfqc, mode: Literal["circuit", "gate"]):
         gate_qasm = f"gate {_selfqc.name} "
-        gate_qasm += " ".join(_selfqc.qubit_map.keys())
+        gate_qasm += " ".join(
+            _selfqc.get_key_by_index(i) for i in range(_selfqc.num_qubits)
+        )
         gate_qasm += " {\n"
         for g, ws, p in _selfqc.gates:
             if issubclass(g.__class__, gates.NopGate):
@@ -53,7 +55,9 @@ class QasmExporter(QCircuitExporter):
 
     def export_v2(self, _selfqc, mode: Literal["circuit", "gate"]):
         gate_qasm = f"gate {_selfqc.name} "
-        gate_qasm += " ".join(_selfqc.qubit_map.keys())
+        gate_qasm += " ".join(
+            _selfqc.get_key_by_index(i) for i in range(_selfqc.num_qubits)
+        )
         gate_qasm += " {\n"
         for g, ws, p in _selfqc.gates:
             if issubclass(g.__class__, gates.NopGate):
